@@ -40,3 +40,8 @@ Proof.
   split; [vm_compute; reflexivity|]. split; [vm_compute; reflexivity|].
   eexists. split; [vm_compute; reflexivity|]. split; vm_compute; reflexivity.
 Qed.
+
+Lemma obj_table_nonvacuous :
+  no_empty_lit g_obj = true /\ ([109;32;97;32;49;32]%N <> []) /\ ([98;32;50]%N <> []) /\
+  PegWsDefs.accepts (run g_obj c_obj (orc_of tbl_obj) false 60 ([109;32;97;32;49;32] ++ [98;32;50])%N) = true.
+Proof. split; [vm_compute; reflexivity|]. split; [discriminate|]. split; [discriminate | vm_compute; reflexivity]. Qed.
